@@ -73,6 +73,19 @@ def main():
         else:
             os.makedirs(os.path.join(wt, refdir, "orig"), exist_ok=True)
             shutil.copytree(os.path.join(wt, "sempler"), os.path.join(wt, refdir, "orig", "sempler_orig_pkg"))
+        # whatever else the agent keeps next to its per-change directories (a shared harness module, a stub package)
+        parent_ = os.path.dirname(os.path.normpath(src))
+        shared = []
+        for e_ in sorted(os.listdir(parent_)):
+            pe_ = os.path.join(parent_, e_)
+            if e_ == "orig" or e_.isdigit() or e_ == "__pycache__":
+                continue
+            if os.path.isdir(pe_):
+                shutil.copytree(pe_, os.path.join(wt, refdir, e_), symlinks=True, ignore=shutil.ignore_patterns("*.pkl", "__pycache__", "*.log"))
+                shared.append(e_)
+            elif os.path.isfile(pe_) and os.path.getsize(pe_) < 200000:
+                shutil.copy(pe_, os.path.join(wt, refdir, e_))
+                shared.append(e_)
         rc, out = sh("git -C %s apply --check %s && git -C %s apply %s" % (wt, patch, wt, patch))
         meta["applies"] = rc == 0
         if rc:
@@ -114,6 +127,11 @@ def main():
         shutil.copy(equiv, os.path.join(dst, "equiv.py"))
         if os.path.exists(os.path.join(src, "notes.md")):
             shutil.copy(os.path.join(src, "notes.md"), os.path.join(dst, "notes.md"))
+        for e_ in shared:
+            pe_ = os.path.join(parent_, e_)
+            if os.path.isfile(pe_) and e_.endswith(".py"):
+                os.makedirs(os.path.join(dst, "shared"), exist_ok=True)
+                shutil.copy(pe_, os.path.join(dst, "shared", e_))
         with open(os.path.join(dst, "meta.json"), "w") as f:
             json.dump(meta, f, indent=1)
     return 0 if meta["confirmed"] else 1
